@@ -83,7 +83,7 @@ func init() {
 }
 
 // runAudit runs the appended cases: numbers first .. first+count-1.
-func runAudit(c *core.Ctx, st *state, first int) {
+func runAudit(c *core.Ctx, st *state, first int) int {
 	n := c.N(1900, 38000)
 	for j := 0; j < n; j++ {
 		i := first + j
@@ -97,6 +97,7 @@ func runAudit(c *core.Ctx, st *state, first int) {
 		c.Count("cases/"+k.name, 1)
 		c.End(i)
 	}
+	return first + n
 }
 
 var streamMakers = []func(q *x) (stream, codec, []byte){
